@@ -65,7 +65,34 @@ fn nearest(nodes: &[Node], mut me: usize, f: impl Fn(&Node) -> bool) -> Option<u
     }
 }
 
-fn build_file(nodes: &[Node]) -> Vec<u8> {
+/// how the boxes are written: a rectangle may give any two diagonally opposite corners, and a box without area is
+/// still the node's own entry
+const BOX_STYLES: &[&str] = &["lower-left+upper-right", "upper-left+lower-right", "upper-right+lower-left", "no-area"];
+fn media_box(style: usize, i: usize) -> [f32; 4] {
+    let w = 100.0 + i as f32;
+    match style {
+        0 => [0.0, 0.0, w, 200.0],
+        1 => [0.0, 200.0, w, 0.0],
+        2 => [w, 200.0, 0.0, 0.0],
+        _ => [w, 7.0, w, 7.0],
+    }
+}
+fn crop_box(style: usize, i: usize) -> [f32; 4] {
+    let r = 50.5 + i as f32;
+    match style {
+        0 => [1.0, 1.0, r, 90.0],
+        1 => [1.0, 90.0, r, 1.0],
+        2 => [r, 90.0, 1.0, 1.0],
+        _ => [r, 3.0, r, 3.0],
+    }
+}
+fn box_val(b: [f32; 4]) -> Val {
+    Val::Array(b.iter().map(|x| if x.fract() == 0.0 { Val::Int(*x as i64) } else { Val::real(&format!("{}", x)) }).collect())
+}
+fn box_is(b: &pdf::object::Rectangle, want: [f32; 4]) -> bool {
+    [b.left, b.bottom, b.right, b.top] == want
+}
+fn build_file(nodes: &[Node], style: usize) -> Vec<u8> {
     let mut fb = FileBuilder::new(b"");
     fb.add(1, 0, &Val::dict(vec![("Type", Val::name("Catalog")), ("Pages", Val::r(nodes[0].nr))]));
     for (i, n) in nodes.iter().enumerate() {
@@ -78,10 +105,10 @@ fn build_file(nodes: &[Node]) -> Vec<u8> {
             d.push(("Count", Val::Int(count(nodes, i) as i64)));
         }
         if n.media {
-            d.push(("MediaBox", Val::ints(&[0, 0, 100 + i as i64, 200])));
+            d.push(("MediaBox", box_val(media_box(style, i))));
         }
         if n.crop {
-            d.push(("CropBox", Val::Array(vec![Val::Int(1), Val::Int(1), Val::real(&format!("{}.5", 50 + i)), Val::Int(90)])));
+            d.push(("CropBox", box_val(crop_box(style, i))));
         }
         if n.res {
             let gs = Val::Dict(vec![(format!("G{}", i).into_bytes(), Val::dict(vec![("Type", Val::name("ExtGState")), ("LW", Val::Int(i as i64))]))]);
@@ -93,7 +120,7 @@ fn build_file(nodes: &[Node]) -> Vec<u8> {
     fb.bytes()
 }
 
-fn check_file(nodes: &[Node], bytes: &[u8], cached: bool) -> std::result::Result<(), (String, String)> {
+fn check_file(nodes: &[Node], bytes: &[u8], cached: bool, style: usize) -> std::result::Result<(), (String, String)> {
     let mut order = vec![];
     leaves(nodes, 0, &mut order);
     macro_rules! body {
@@ -118,7 +145,7 @@ fn check_file(nodes: &[Node], bytes: &[u8], cached: bool) -> std::result::Result
                 let exp_media = nearest(nodes, leaf, |n| n.media);
                 match (page.media_box(), exp_media) {
                     (Ok(b), Some(src)) => {
-                        if b.right != (100 + src) as f32 || b.top != 200.0 || b.left != 0.0 || b.bottom != 0.0 {
+                        if !box_is(&b, media_box(style, src)) {
                             return Err(("media-box-source".into(), format!("page {}: media box {:?} but the nearest node with a /MediaBox is node {} (width {})", i, b, src, 100 + src)));
                         }
                     }
@@ -134,12 +161,12 @@ fn check_file(nodes: &[Node], bytes: &[u8], cached: bool) -> std::result::Result
                 let exp_crop = nearest(nodes, leaf, |n| n.crop);
                 match (page.crop_box(), exp_crop, exp_media) {
                     (Ok(b), Some(src), _) => {
-                        if b.right != 50.5 + src as f32 || b.left != 1.0 || b.top != 90.0 {
+                        if !box_is(&b, crop_box(style, src)) {
                             return Err(("crop-box-source".into(), format!("page {}: crop box {:?} but nearest /CropBox is on node {}", i, b, src)));
                         }
                     }
                     (Ok(b), None, Some(m)) => {
-                        if b.right != (100 + m) as f32 || b.left != 0.0 {
+                        if !box_is(&b, media_box(style, m)) {
                             return Err(("crop-box-fallback".into(), format!("page {}: crop box {:?} should fall back to the media box of node {}", i, b, m)));
                         }
                     }
@@ -195,14 +222,15 @@ fn check_file(nodes: &[Node], bytes: &[u8], cached: bool) -> std::result::Result
 }
 
 fn judge(engine: &str, nodes: &[Node], ch: &mut Chooser, t: &mut Tally) {
-    let bytes = build_file(nodes);
+    let style = ch.pick_named("box-corners", BOX_STYLES);
+    let bytes = build_file(nodes, style);
     if ch.want_sample {
         println!("tree: {:?}\nfile:\n{}", nodes.iter().map(|n| (n.nr, n.is_page, n.kids.clone(), n.media, n.crop, n.res)).collect::<Vec<_>>(), String::from_utf8_lossy(&bytes));
     }
     for cached in [false, true] {
         t.evaluations += 1;
         t.distinct.insert(fnv_mix(fnv(&bytes), cached as u64));
-        let res = catch(|| check_file(nodes, &bytes, cached));
+        let res = catch(|| check_file(nodes, &bytes, cached, style));
         let verdict = match res {
             Err((loc, msg)) => Err((panic_kind(&loc), msg)),
             Ok(r) => r,
@@ -302,7 +330,7 @@ pub fn run(tier: Tier, _seed: u64, tally: &mut Tally) -> CheckMeta {
     CheckMeta {
         prop: "C07",
         level: "model_checking",
-        rule: format!("all rooted ordered trees with <= {} nodes (each childless node independently a page or an empty Pages node; full product), accurate /Count and /Parent, object numbers scrambled against document order; <= {} deviations of attribute placement (per node and per attribute MediaBox / CropBox / Resources present or absent, default: only on the root); plus chains of depth 1..12 with side pages before/after/both and an attribute-carrying level. Every file is opened uncached and cached; num_pages, get_page(i) for all i and count..count+2, media_box, crop_box (fallback), resources and pages() are compared with the reference model (DFS leaf list, nearest tagged ancestor). Distinct by file hash x configuration.", max_nodes, bound),
+        rule: format!("all rooted ordered trees with <= {} nodes (each childless node independently a page or an empty Pages node; full product), accurate /Count and /Parent, object numbers scrambled against document order; <= {} deviations of attribute placement (per node and per attribute MediaBox / CropBox / Resources present or absent, default: only on the root) and of the way the boxes are written (any two opposite corners, a box without area); plus chains of depth 1..12 with side pages before/after/both and an attribute-carrying level. Every file is opened uncached and cached; num_pages, get_page(i) for all i and count..count+2, media_box, crop_box (fallback), resources and pages() are compared with the reference model (DFS leaf list, nearest tagged ancestor). Distinct by file hash x configuration.", max_nodes, bound),
         assumptions: vec!["object numbers are a permutation of the node indices; tagged values identify the node that supplied an attribute".into()],
         exhaustive: true,
         bounds: json!({"max_nodes": max_nodes, "attribute_deviations": bound, "chain_depth": 12}),
